@@ -8,7 +8,7 @@ from gvsim.worlds import world_is_valid_start
 
 PROP = 'C08'
 TIERS = {'quick': {'runs': 2400, 'wall': 100}, 'thorough': {'runs': 60000, 'wall': 1500}}
-REACH = ['move_off_top', 'move_off_left', 'move_off_bottom', 'move_off_right', 'move_blocked_by_Box', 'move_blocked_by_Door', 'teleport_fired', 'turn_pattern', 'pose_scan', 'knob:nested_chain', 'knob:long_strip', 'knob:two_nested_chains', 'knob:maze']  # probes / faults that must fire in every batch (reach gaps are reported in the evidence)
+REACH = ['move_off_top', 'move_off_left', 'move_off_bottom', 'move_off_right', 'move_blocked_by_Box', 'move_blocked_by_Door', 'teleport_fired', 'turn_pattern', 'pose_scan', 'knob:nested_chain', 'knob:long_strip', 'knob:two_nested_chains', 'knob:maze', 'action_given_as_index']  # probes / faults that must fire in every batch (reach gaps are reported in the evidence)
 RULE = ('one run = one client (random composition of built-in components over a free-form world without '
         'mandatory boundary, or a shipped YAML configuration) driven by a seeded op list (stateful steps, '
         'functional steps on pool states for all actions, edge-hugging / object-seeking guided policies, turn '
